@@ -1471,6 +1471,44 @@ func rw(w bool) string {
 	return "read"
 }
 
+// T13: the descriptor of a connection is never taken out of the runtime's poller. (*net.TCPConn).File /
+// (*net.UDPConn).File and (*os.File).Fd put the open file description into blocking mode: from then on a deadline
+// no longer interrupts a pending read or write on the connection, and the call can outlive its timeout for ever.
+// Socket options are set through the Dialer/ListenConfig Control callback (syscall.RawConn), which does not.
+func RuleNoRawDescriptor(r *Report, p *Program) {
+	r.Rule("T13", "no connection is turned into an *os.File / raw descriptor (File(), Fd()): that makes its I/O blocking and its deadlines ineffective", 1)
+	bad := ""
+	pos := ""
+	n := 0
+	for _, fn := range p.AllFuncs {
+		pk := fnPkg(fn)
+		if pk == nil || pk != p.SSAPkg("uhppote") {
+			continue
+		}
+		for _, b := range fn.Blocks {
+			for _, in := range b.Instrs {
+				c, ok := in.(ssa.CallInstruction)
+				if !ok {
+					continue
+				}
+				n++
+				name := ""
+				if f := c.Common().StaticCallee(); f != nil {
+					name = calleeName(f)
+				} else if c.Common().IsInvoke() {
+					name = "invoke:" + c.Common().Method.Name()
+				}
+				switch name {
+				case "(*net.TCPConn).File", "(*net.UDPConn).File", "(*net.IPConn).File", "(*net.UnixConn).File", "(*net.TCPListener).File", "(*os.File).Fd", "invoke:File", "invoke:Fd":
+					bad = name + " is called in " + calleeName(fn) + ": the connection's descriptor becomes blocking and deadlines stop working"
+					pos = p.Pos(in.Pos())
+				}
+			}
+		}
+	}
+	r.Check(bad == "" && n > 0, "T13", "uhppote:descriptors", pos, fmt.Sprintf("%d call sites examined", n), bad)
+}
+
 // RB: every buffer handed to a socket read can hold more than one protocol message, so an over-long
 // datagram is seen as over-long instead of being truncated to a well-formed length.
 func RuleReadBuffers(r *Report, p *Program) {
